@@ -52,6 +52,12 @@ fn single(seed: u64, idx: u64) -> Tally {
         (false, true) => start!(base.after(world::after_hook)),
         (false, false) => start!(base),
     };
+    // every 4th run is polled inside the user's own (enabled) span, as a test binary that
+    // instruments its whole suite would do; created after init_tracing() installed the subscriber
+    let outer = idx % 4 == 1;
+    if outer {
+        fut = Box::pin(tracing::Instrument::instrument(fut, tracing::info_span!("whole-suite")));
+    }
     let q = sink.0.clone();
     let mut done = false;
     let stream = stream::poll_fn(move |cx| {
@@ -79,6 +85,7 @@ fn single(seed: u64, idx: u64) -> Tally {
     t.count("callbacks", out.cbs.len() as u64);
     t.count("qpoints", out.qpoints.len() as u64);
     t.interleavings.insert(out.sched_hash);
+    t.count("c20.runs_inside_an_outer_span", u64::from(outer));
     t.count("c20.deferred_in_span_logs_fired", out.qpoints.iter().filter(|q| q.decision.contains("deferred")).count() as u64);
     oracles_trace::c20(&an, &mut t, idx);
     // the same real run also feeds the runner oracles: this is the only workload
